@@ -141,12 +141,17 @@ class MutableKernelSizes:
         :rtype: int
         """
         if kernel_size is not None:
-            if self.tuple_sizes:
-                assert isinstance(kernel_size, tuple), "Kernel size must be a tuple."
-            else:
-                assert isinstance(kernel_size, int), "Kernel size must be an integer."
+            # NOTE: change_kernel() reports the (square) kernel size it sampled as a plain
+            # integer, which is then applied to the other evaluation networks, also when the
+            # kernel sizes are stored as tuples (e.g. Conv3d blocks in multi-agent settings)
+            if isinstance(kernel_size, tuple):
+                kernel_size = kernel_size[-1]
 
-            new_kernel_size = kernel_size
+            assert isinstance(
+                kernel_size, (int, np.integer)
+            ), "Kernel size must be an integer."
+
+            new_kernel_size = int(kernel_size)
         else:
             max_kernels = self.calc_max_kernel_sizes(
                 channel_size, stride_size, input_shape
